@@ -17,6 +17,8 @@ those of js.go, expressed on the previous token (`m.prev`) and the token about t
 * `a< /script>/`: a space between `<` and a regular expression starting with `/script>`.
 * import / export clauses: `"a" as b`, `a as "b"` (the `as ` chunk carries its space).
 * a kept `//!` comment is followed by a line feed.
+* `import.meta in x`, `new.target instanceof y`: two spaces (`writeSpaceBeforeIdent` after the meta property and
+  `writeSpaceAfterIdent` before the operator both fire).
 
 Tokens are (kind, text) pairs; `comment` is the pseudo-token of a kept comment statement.
 -/
@@ -39,8 +41,9 @@ def isIdByte (c : Char) : Bool := c.isAlphanum || c == '_' || c == '$' || c == '
 
 structure XState where
   prev : Option XTok := none
-  /-- last byte of the token before `prev` -/
-  prevPrevLast : Option Char := none
+  /-- the two tokens before `prev` -/
+  prev2 : Option XTok := none
+  prev3 : Option XTok := none
   spaceBefore : Option Char := none
 deriving Inhabited
 
@@ -71,12 +74,21 @@ def spaceBetween (st : XState) (t : XTok) : Bool :=
     -- "a" as b, a as "b"
     || (isName t "as" && p.kind == .tok .str) || (isName p "as" && t.kind == .tok .str)
 
+/-- `import.meta` / `new.target` call `writeSpaceBeforeIdent`; a following `in` / `instanceof` / `of` then gets the space
+    of `writeSpaceAfterIdent` and the space of `write` -/
+def metaBefore (st : XState) : Bool :=
+  match st.prev, st.prev2, st.prev3 with
+  | some a, some b, some c =>
+    isPunct b "." && ((isName a "meta" && isName c "import") || (isName a "target" && isName c "new"))
+  | _, _, _ => false
+
 def writeX (st : XState) (t : XTok) : List Char × XState :=
   let sp := spaceBetween st t
+  let sp2 := metaBefore st && (isName t "in" || isName t "instanceof" || isName t "of")
   let isLtNot := isPunct t "!" && lastOf st.prev == some '<'
-  let out := (if sp then [' '] else []) ++ t.text
+  let out := (if sp then [' '] else []) ++ (if sp2 then [' '] else []) ++ t.text
     ++ (if t.kind == .comment && "//".toList.isPrefixOf t.text then ['\n'] else [])
-  (out, { prev := some t, prevPrevLast := lastOf st.prev,
+  (out, { prev := some t, prev2 := st.prev, prev3 := st.prev2,
           spaceBefore := if isPunct t "+" then some '+' else if isPunct t "-" then some '-'
             else if isPunct t "/" then some '/' else if isLtNot then some '-' else none })
 
